@@ -3,7 +3,7 @@
    forexpand.go (run against gmars on every run: hook kind 21 and whole programs),
    Render.unroll the manual unrolling of an abstract program. *)
 From GM Require Import Base Text Token Lexer Scanner ExprSpec ExprEval ForExpand Parser Compile Sim Prog Meaning Render AsmSpec
-     C05Lexer C05Expander C08Proof.
+     C05Lexer C05Expander C08Proof C08Block.
 From Coq Require Import Lia.
 Open Scope N_scope.
 
@@ -116,9 +116,47 @@ Proof.
 Qed.
 Print Assumptions C08_block_labels_partial.
 
-(* missing: the collection of the body (forInnerLine .. forInnerEmitConsumeLine with nesting depth), the copying
-   of the lines before the block, the repeat-until-no-FOR driver, and the composition with lexer, parser and
-   compiler into C08_full_statement.  These are decided on every run by the correspondence: generated programs
+(* ONE PASS of the expander, as a whole, at the token level.  Whatever stands in front of the first block
+   (lines that do not begin with a word; labels - with line ends, comments and colons between them - and then an
+   instruction or a pseudo-op other than FOR), a header (labels, FOR, the count expression with comments dropped),
+   a body of any lines with nested blocks properly closed (body_run follows the nesting depth and finds the place
+   of the block labels), the closing ROF line, the rest of the program and the end-of-file token: the pass ends
+   and sends exactly the lines in front (labels re-attached), the block written out (first iteration with the
+   block labels in place, then iterations 2 .. count), and the rest, unchanged. *)
+Theorem C08_one_pass_partial :
+  forall symbols pre hl forw es body cls rofw skip rest e v d_at content',
+    Forall pline_ok pre ->
+    plbl_ok hl -> t_typ forw = tokText -> tok_is_pseudo forw = true -> lower_is (t_val forw) "for" = true -> Forall plain_tok es ->
+    expand_and_evaluate (filter noncomment es) symbols = Some (EOk v) ->
+    Forall bline_ok body -> body_run body 0 None [] = Some (O, d_at, content') ->
+    Forall (fun vc => is_label (fst vc)) cls ->
+    t_typ rofw = tokText -> tok_is_pseudo rofw = true -> lower_is (t_val rofw) "for" = false -> lower_is (t_val rofw) "rof" = true ->
+    Forall plain_tok skip -> Forall nonterm rest -> t_typ e = tokEOF ->
+    let toks := flat_map pl_toks pre ++ (plbl_seg hl ++ forw :: es ++ [nlt]) ++ flat_map bl_toks body
+                ++ lbl_seg cls ++ rofw :: skip ++ (nlt :: rest ++ [e]) in
+    exists r, for_expand toks symbols = Some (Some r) /\
+      fr_sends r = flat_map pl_out pre
+                   ++ emit_body (Z.to_nat v) d_at (last (map fst hl) []) (init_list (map fst hl)) content'
+                   ++ rest.
+Proof. exact one_pass. Qed.
+Print Assumptions C08_one_pass_partial.
+
+(* the premises are satisfiable: `x i for 2 / lbl dat i / j for 1 / dat j / rof / rof / jmp x` *)
+Example C08_one_pass_example :
+  let T := mkT tokText in let d := s2t "dat" in
+  let body := [mkBL [(s2t "lbl", 1%nat)] [T d; T (s2t "i")];
+               mkBL [(s2t "j", 0%nat)] [T (s2t "for"); mkT tokNumber [49]];
+               mkBL [] [T d; T (s2t "j")];
+               mkBL [] [T (s2t "rof")]] in
+  Forall bline_ok body /\
+  body_run body 0 None [] =
+    Some (O, Some O, [T (s2t "lbl"); T d; T (s2t "i"); nlt; T (s2t "j"); T (s2t "for"); mkT tokNumber [49]; nlt;
+                      T d; T (s2t "j"); nlt; T (s2t "rof"); nlt]).
+Proof. cbv zeta. split; [repeat constructor; cbn; discriminate|vm_compute; reflexivity]. Qed.
+
+(* missing: that the passes of the driver, one block each, add up to the unrolling of the abstract program
+   (Render.unroll), and the composition with lexer, parser and compiler into C08_full_statement (that the driver
+   ends is C05).  These are decided on every run by the correspondence: generated programs
    (blocks in sequence, nested to depth 3, counts 0..6 from literals and EQU expressions, counters in inner and
    outer operand expressions, block labels) and their extracted unrollings are assembled by gmars and by the
    extracted model and compared with each other and with the extracted meaning. *)
